@@ -98,6 +98,41 @@ func (r *run) closeSubs() {
 	}
 }
 
+// quiet waits a moment and then looks for messages nobody should have sent: every subscription has been drained up to
+// the best block, so anything that arrives now is an extra or duplicate message.
+func (r *run) quiet() {
+	live := false
+	for _, s := range r.wsubs {
+		live = live || !s.dead
+	}
+	if !live {
+		return
+	}
+	time.Sleep(60 * time.Millisecond)
+	for _, s := range r.wsubs {
+		if s.dead {
+			continue
+		}
+		select {
+		case data, ok := <-s.ch:
+			if !ok {
+				s.dead = true
+				r.fail(fmt.Sprintf("subscription %s r%d", s.kind, s.id), fmt.Errorf("closed by the server while idle"))
+				continue
+			}
+			var m wireMsg
+			_ = json.Unmarshal(data, &m)
+			id := m.ID
+			if isLogKind(s.kind) {
+				id = m.Meta.BlockID
+			}
+			r.emit(trace.Ev{"e": "SubExtra", "r": s.id, "kind": s.kind, "b": r.bname(id), "obs": m.Obsolete})
+			s.dead = true
+		default:
+		}
+	}
+}
+
 func isLogKind(k string) bool { return k == "transfer" || k == "event" }
 
 // startSub opens a websocket subscription at ?pos=<id of pos> (pos must not be above best: the handler refuses that).
@@ -106,14 +141,15 @@ func (r *run) startSub(kind string, pos *blk) {
 	url := "ws" + strings.TrimPrefix(ss.srv.URL, "http") + "/subscriptions/" + kind + "?pos=" + pos.id.String()
 	conn, resp, err := websocket.DefaultDialer.Dial(url, nil)
 	if err != nil {
-		code := 0
-		if resp != nil {
-			code = resp.StatusCode
+		if resp == nil {
+			must(fmt.Errorf("cannot reach the httptest server: %w", err)) // the harness's own trouble
 		}
-		r.fail("subscribe "+kind, fmt.Errorf("%v (http %d)", err, code))
+		// the handler answered, and refused a position that is known and not above best
+		r.fail("subscribe "+kind, fmt.Errorf("%v (http %d)", err, resp.StatusCode))
 		return
 	}
-	s := &wsub{id: 100 + len(r.wsubs), kind: kind, conn: conn, ch: make(chan []byte, 4096), pos: pos}
+	r.subSeq++
+	s := &wsub{id: 1000 + r.subSeq, kind: kind, conn: conn, ch: make(chan []byte, 4096), pos: pos}
 	for _, b := range r.chainOf(pos) {
 		s.heldB = append(s.heldB, b.name)
 		for _, t := range b.txs {
@@ -176,19 +212,33 @@ func (r *run) drainSub(s *wsub) {
 	out := []trace.Ev{}
 	flagsOnly := true
 	k := 0 // index into the expectation (block kinds only)
-	deadline := time.After(10 * time.Second)
+	deadline := time.After(20 * time.Second)
 	for n := 0; n < want; n++ {
 		var data []byte
-		var ok bool
+		var ok, timedOut bool
 		select {
 		case data, ok = <-s.ch:
 		case <-deadline:
+			timedOut = true
+		}
+		if timedOut {
+			// Wall clock only: nothing the server sent is wrong. Ask the code under test directly, without a clock: a
+			// chain.BlockReader at the same position, one Read, logged and judged like any other read. If that is fine
+			// the stall is the machine's (Stall event -> the run is set aside as infrastructure trouble).
+			s.dead = true
+			r.st.Stalls++
+			probe := r.startReader(s.pos)
+			r.step(probe)
+			probe.done = true
+			r.emit(trace.Ev{"e": "Stall", "r": s.id, "kind": s.kind, "got": n, "want": want, "pos": s.pos.name, "best": r.best.name})
+			return
 		}
 		if !ok {
+			// the server closed the connection although messages were due
 			s.dead = true
 			r.emitDrain(s, out, false)
 			r.fail(fmt.Sprintf("subscription %s r%d", s.kind, s.id),
-				fmt.Errorf("closed or stalled after %d of %d messages expected from %s to best %s", n, want, s.pos.name, r.best.name))
+				fmt.Errorf("closed by the server after %d of %d messages due from %s to best %s", n, want, s.pos.name, r.best.name))
 			return
 		}
 		var m wireMsg
